@@ -26,18 +26,7 @@ CANON = [
 def build_race_harness():
     """go build -race of harness/c06 against the CURRENT /repo tree (Go's build cache makes the unchanged
     case cheap and rebuilds whenever a source file of /repo or of the harness changed)."""
-    h = os.path.join(V.ROOT, "harness")
-    log0 = ""
-    # same module file as lib/verif.py build_harness (github.com/itchyny/gojq => REPO)
-    shutil.copy(os.path.join(V.REPO, "go.sum"), os.path.join(h, "go.sum"))
-    gomod = ("module verifharness\n\ngo 1.24.0\n\nrequire github.com/itchyny/gojq v0.0.0\n\n"
-             "replace github.com/itchyny/gojq => %s\n" % V.REPO)
-    p = os.path.join(h, "go.mod")
-    if not os.path.exists(p) or open(p).read() != gomod:
-        open(p, "w").write(gomod)
-    exe = os.path.join(V.BUILD, "harness-c06-race")
-    rc, out = V.sh(["go", "build", "-race", "-tags", "verif", "-o", exe, "./c06"], cwd=h, env=V.go_env(), timeout=1200)
-    return (exe if rc == 0 else None), log0 + out
+    return V.build_harness("c06", extra_flags=["-race"], out="harness-c06race")
 
 
 def split_reports(text):
@@ -101,7 +90,7 @@ def race_stream(c, tier, seed, replay_case=None):
         if i < 0:
             # the canonical cases are repeated until they show (detection needs an actual overlap in time)
             acc = dict(records=[], crashes=[], stderr={}, timed_out=False)
-            for attempt in range(5):
+            for attempt in range(2):
                 r = U.drive(exe, "race", ["-n", "-2", "jobs=" + cp, "G=%d" % G, "R=250"], env=env, timeout=300)
                 acc["records"] += r["records"]
                 acc["crashes"] += r["crashes"]
